@@ -144,6 +144,7 @@ func check(c Case, r *vh.R) {
 			}
 			if c.Decoys == "dup" || c.Decoys == "both" {
 				d := &bundle.Exchange{Request: e.Request, Response: bundle.Response{Status: 404, Header: map[string][]string{"Content-Type": {"x/decoy"}}, Body: []byte("decoy body")}}
+				r.Class("decoy-offered:dup")
 				if derr := sg.AddExchange(d, id); derr != nil {
 					r.Class("decoy-refused:dup")
 				}
@@ -153,6 +154,7 @@ func check(c Case, r *vh.R) {
 				du.Path = fmt.Sprintf("/decoy-%d-%d", si, i)
 				du.RawPath, du.RawQuery = "", ""
 				d := &bundle.Exchange{Request: bundle.Request{URL: &du}, Response: bundle.Response{Status: 200, Header: map[string][]string{"X-Bad-\u00e9": {"v"}}, Body: []byte("decoy body")}}
+				r.Class("decoy-offered:unencodable")
 				if derr := sg.AddExchange(d, id); derr != nil {
 					r.Class("decoy-refused:unencodable")
 				}
